@@ -321,6 +321,7 @@ func runC19(a *A) {
 	})
 	a.Rule("ordtab/expansion-ceiling", 2, func() { a.ruleExpansionCeiling() })
 	a.Rule("flow/fresh-channel-per-iteration", 1, func() { a.ruleFreshChannelPerIteration() })
+	a.Rule("flow/received-row-processed", 1, func() { a.ruleReceivedRowProcessed() })
 	a.Rule("flow/count-before-strategy", 1, func() {
 		fn := a.Method("stream", "Stream", "Emit")
 		isInc := func(in ssa.Instruction) bool {
@@ -663,6 +664,266 @@ func (a *A) ruleReceiveUnderLock() int {
 					fmt.Sprintf("receives from the input buffer without holding dataChanMux (lockset %s): it can take a row from the old channel while an expansion is moving older rows to the new one, and that row is processed first", held))
 			}
 		})
+	}
+	return n
+}
+
+// ruleReceivedRowProcessed: a row that the processing goroutine has taken out of the input channel
+// is out of reach of Stop's accounting (Stop counts what is still in the channel). It must therefore
+// be processed: in the consumer (DataProcessor.Process, the literals and package methods it calls
+// per iteration), after every receive from Stream.dataChan that delivered a row, processItem runs
+// before the goroutine receives again or returns. Rows may be collected into a batch first only if
+// the loop that hands the batch to processItem cannot be left early.
+func (a *A) ruleReceivedRowProcessed() int {
+	proc := a.Method("stream", "DataProcessor", "Process")
+	item := a.Method("stream", "DataProcessor", "processItem")
+	dc := a.FieldOf(a.Named("stream", "Stream"), "dataChan")
+	hosts := []*ssa.Function{proc}
+	seen := map[*ssa.Function]bool{proc: true}
+	for i := 0; i < len(hosts) && i < 12; i++ {
+		allInstrs(hosts[i], func(in ssa.Instruction) {
+			if _, isGo := in.(*ssa.Go); isGo {
+				return
+			}
+			g := staticCallee(in)
+			if g == nil || g.Blocks == nil || seen[g] || g == item || !(inlinePartOf(g, hosts[i]) || ssaPkgOf(g) == ssaPkgOf(proc)) {
+				return
+			}
+			// only callees that themselves receive
+			recvs := false
+			allInstrs(g, func(x ssa.Instruction) {
+				if sel, ok := x.(*ssa.Select); ok {
+					for _, st := range sel.States {
+						if st.Dir == types.RecvOnly {
+							recvs = true
+						}
+					}
+				}
+				if u, ok := x.(*ssa.UnOp); ok && u.Op == token.ARROW {
+					recvs = true
+				}
+			})
+			if recvs {
+				seen[g] = true
+				hosts = append(hosts, g)
+			}
+		})
+	}
+	isItem := func(in ssa.Instruction) bool { return staticCallee(in) == item }
+	n := 0
+	for _, h := range hosts {
+		allInstrs(h, func(in ssa.Instruction) {
+			sel, ok := in.(*ssa.Select)
+			if !ok {
+				return
+			}
+			for si, st := range sel.States {
+				if st.Dir != types.RecvOnly {
+					continue
+				}
+				isData := false
+				for _, leaf := range phiLeaves(st.Chan) {
+					if d, c := isDataChan(leaf, dc); d || c {
+						isData = true
+					}
+					if p, isParam := leaf.(*ssa.Parameter); isParam && h != proc {
+						// a helper that is handed the channel it drains (same element type as dataChan)
+						if pc, ok := p.Type().Underlying().(*types.Chan); ok {
+							if dcT, ok := dc.Type().Underlying().(*types.Chan); ok && types.Identical(pc.Elem(), dcT.Elem()) {
+								isData = true
+							}
+						}
+					}
+				}
+				if !isData {
+					continue
+				}
+				n++
+				construct := fmt.Sprintf("%s#recv[%d]", fname(h), si)
+				// the received value
+				var recvVal ssa.Value
+				for _, r := range *sel.Referrers() {
+					if ex, ok := r.(*ssa.Extract); ok && ex.Index >= 2 {
+						k := 0
+						for j := 0; j < si; j++ {
+							if sel.States[j].Dir == types.RecvOnly {
+								k++
+							}
+						}
+						if ex.Index == 2+k {
+							recvVal = ex
+						}
+					}
+				}
+				// collected into a batch? then the batch's delivery loop must be tight
+				batched := false
+				if recvVal != nil {
+					for _, r := range *recvVal.Referrers() {
+						if c, ok := r.(*ssa.Call); ok {
+							if _, isAp := isBuiltinCall(c, "append"); isAp {
+								batched = true
+							}
+						}
+						if stv, ok := r.(*ssa.Store); ok && stv.Val == recvVal {
+							if _, isIA := stv.Addr.(*ssa.IndexAddr); isIA {
+								batched = true
+							}
+						}
+					}
+				}
+				if batched {
+					okLoop := false
+					why := "no loop that hands the collected rows to processItem was found"
+					for _, l := range rangeLoops(proc) {
+						calls := false
+						for b := range l.Blocks {
+							for _, x := range b.Instrs {
+								if isItem(x) {
+									calls = true
+								}
+							}
+						}
+						if !calls {
+							continue
+						}
+						if bad := loopEarlyExit(l, nil); bad != nil {
+							why = "the loop that hands the collected rows to processItem can be left early (" + a.pos(bad.Pos()) + ")"
+						} else {
+							okLoop = true
+						}
+					}
+					a.Check(okLoop, construct, in.Pos(), "rows are collected into a batch and every row of the batch is handed to processItem",
+						"rows are taken out of the input channel into a batch and "+why+": the rows left in the batch are neither processed nor counted by Stop (it only counts what is still in the channel)")
+					continue
+				}
+				// direct form: from the successful receive, processItem before the next receive / return
+				isEnd := func(x ssa.Instruction) bool {
+					if _, isRet := x.(*ssa.Return); isRet {
+						return true
+					}
+					return x == ssa.Instruction(sel)
+				}
+				idxV := func() ssa.Value {
+					for _, r := range *sel.Referrers() {
+						if ex, ok := r.(*ssa.Extract); ok && ex.Index == 0 {
+							return ex
+						}
+					}
+					return nil
+				}()
+				okV := func() ssa.Value {
+					for _, r := range *sel.Referrers() {
+						if ex, ok := r.(*ssa.Extract); ok && ex.Index == 1 {
+							return ex
+						}
+					}
+					return nil
+				}()
+				escape := pathFromTo(sel, isEnd, func(v ssa.Value) Tri {
+					// this case fired and delivered a row
+					if bo, ok := v.(*ssa.BinOp); ok && bo.Op == token.EQL && bo.X == idxV {
+						if k, ok := bo.Y.(*ssa.Const); ok && k.Value != nil {
+							return tri(int(k.Int64()) == si)
+						}
+					}
+					if v == okV && okV != nil {
+						return T
+					}
+					return U
+				}, isItem)
+				if h != proc && escape {
+					// the helper returns the row to the loop: what its boolean results are when a row was
+					// delivered (`return d, ok, !ok`), and with those, the call site in Process
+					deliveredAssume := func(v ssa.Value) Tri {
+						if bo, ok := v.(*ssa.BinOp); ok && bo.Op == token.EQL && bo.X == idxV {
+							if k, ok := bo.Y.(*ssa.Const); ok && k.Value != nil {
+								return tri(int(k.Int64()) == si)
+							}
+						}
+						if v == okV && okV != nil {
+							return T
+						}
+						return U
+					}
+					results := map[int]Tri{}
+					first := true
+					for _, b := range h.Blocks {
+						ret, isRet := b.Instrs[len(b.Instrs)-1].(*ssa.Return)
+						if !isRet {
+							continue
+						}
+						if !pathFromTo(sel, func(x ssa.Instruction) bool { return x == ssa.Instruction(ret) }, deliveredAssume, nil) {
+							continue
+						}
+						for i, rv := range ret.Results {
+							if !isBool(rv.Type()) {
+								continue
+							}
+							val := U
+							neg := false
+							x := rv
+							// named results of a function with a defer are spilled: the value is what the
+							// returning block stored into the result variable last
+							if ld, ok := x.(*ssa.UnOp); ok && ld.Op == token.MUL {
+								if al, ok := ld.X.(*ssa.Alloc); ok {
+									for _, bi := range b.Instrs {
+										if stv, ok := bi.(*ssa.Store); ok && stv.Addr == ssa.Value(al) {
+											x = stv.Val
+										}
+									}
+								}
+							}
+							for {
+								if u, ok := x.(*ssa.UnOp); ok && u.Op == token.NOT {
+									x, neg = u.X, !neg
+									continue
+								}
+								break
+							}
+							if x == okV && okV != nil {
+								val = T
+							} else if k, ok := constBool(x); ok {
+								val = tri(k)
+							}
+							if neg {
+								val = val.not()
+							}
+							if first {
+								results[i] = val
+							} else if results[i] != val {
+								results[i] = U
+							}
+						}
+						first = false
+					}
+					callsOK := true
+					for _, c := range callsTo(proc, h) {
+						c := c
+						if pathFromTo(c, func(x ssa.Instruction) bool {
+							if _, isRet := x.(*ssa.Return); isRet {
+								return true
+							}
+							return x == c
+						}, func(v ssa.Value) Tri {
+							if ex, ok := v.(*ssa.Extract); ok && ex.Tuple == ssa.Value(c.(*ssa.Call)) {
+								if r, known := results[ex.Index]; known {
+									return r
+								}
+							}
+							return U
+						}, isItem) {
+							callsOK = false
+						}
+					}
+					escape = !callsOK
+				}
+				a.Check(!escape, construct, in.Pos(), "after a row was received, processItem runs before the goroutine receives again or returns",
+					"a row received from the input channel can be dropped: a path leads from the receive to the next receive (or out of the goroutine) without processItem - the row is neither processed nor counted as dropped")
+			}
+		})
+	}
+	if n == 0 {
+		a.anchorFail("no receive from Stream.dataChan found in the processing goroutine")
 	}
 	return n
 }
